@@ -279,6 +279,7 @@ def run_corpus(shard):
     rows += [('special', s) for s in ('CC(=O)[O-].[Na+]', 'C[NH3+].[Cl-]', 'OC(=O)CC[NH3+]', '[O-]C(=O)CC[NH3+]', 'CC(C)(N(=O)=O)N(=O)=O', 'O=N(=O)C(C)(C)N(=O)=O', 'C[N+](C)(C)C.[OH-]',
                                      'c1ccccc1O', 'Oc1ccccn1', 'O=C1C=CNC=C1', 'CC(O)=CC', 'CC(=O)CC(=O)C', '[O-]c1c[s+]ccc1', 'CN(C)C=C[S+]=CC', '[Fe](C#O)(C#O)(C#O)(C#O)C#O', 'CS(C)=O', 'C[S+](C)[O-]',
                                      'CP(C)(C)=O', 'N#[N+][O-]', 'CN=[N+]=[N-]', 'C[N+]#N', 'Cn1cc[n+](C)c1', 'OC1=NC(O)=CC=N1', 'O=c1cc[nH]c(=O)[nH]1', '[CH3]', 'C[O]', 'CC(=O)O[Na]', 'Cl[Mg]C', 'C[Li]')]
+    rows += [('taut-stereo', s) for s in inputs.tautomer_stereo_family()]
     for i, (fam, s) in enumerate(rows):
         if i % nsh != k:
             continue
@@ -376,6 +377,16 @@ def replay(rec):
     from chython import smiles
     tag = rec['mol']
     acc = Acc()
+    if 'tautomer' in rec.get('key', ''):
+        import vf.props.c14 as me
+        keep_c, keep_o, keep_t = M.corpus, inputs.organometallics, inputs.tautomer_stereo_family
+        M.corpus, inputs.organometallics, inputs.tautomer_stereo_family = (lambda **kw: [tag]), (lambda: []), (lambda: [])
+        try:
+            for k in range(64):
+                acc.merge(run_corpus((k, 64, 'thorough')))
+        finally:
+            M.corpus, inputs.organometallics, inputs.tautomer_stereo_family = keep_c, keep_o, keep_t
+        return [f for f in acc.fails if f['key'] == rec['key']]
     if '[C@H](' in tag and ('[nH+]' in tag or '[n+]' in tag) and 'azolium' in rec.get('key', '') + 'azolium' and ('idempotent' in rec['key'] or 'oscillates' in rec['key'] or 'charge spellings' in rec['key']):
         for k in range(16):
             acc.merge(run_azolium((k, 16, 'thorough')))
